@@ -89,8 +89,10 @@ def main(argv=None):
     ap.add_argument('--no-evidence', action='store_true')
     args = ap.parse_args(argv)
 
-    if os.environ.get('PYTHONHASHSEED') != '0':
-        os.environ['PYTHONHASHSEED'] = '0'
+    want = os.environ.get('VERIF_HASHSEED', '0') or '0'
+    if os.environ.get('PYTHONHASHSEED') != want:
+        # string hashing fixed (0 unless VERIF_HASHSEED selects another value): runs repeat
+        os.environ['PYTHONHASHSEED'] = want
         os.environ['PYTHONDONTWRITEBYTECODE'] = '1'
         os.execv(sys.executable, [sys.executable, '-m', 'vt.runner'] +
                  (argv if argv is not None else sys.argv[1:]))
